@@ -314,6 +314,9 @@ func tableLayout(context *layoutContext, table_ bo.TableBoxITF, bottomSpace pr.F
 			endingCells, endingCellsByRow = endingCellsByRow[0], endingCellsByRow[1:]
 			if len(endingCells) != 0 { // in this row
 				if row.Height == pr.AutoF {
+					// the table may be placed above the origin : the maximum
+					// starts below every cell, not at 0
+					rowBottomY = -pr.Inf
 					for _, cell := range endingCells {
 						if v := cell.Box().PositionY + cell.Box().BorderHeight(); v > rowBottomY {
 							rowBottomY = v
